@@ -97,8 +97,14 @@ fn error_ledger(rng: &mut Rng) -> (String, &'static str) {
             (s, "failing-zero-assertion-on-multi-commodity-account")
         }
         2 => {
-            s.push_str("2024/02/01 unbalanced\n    Assets:Pot0    1 USD\n    Assets:Pot1    2 EUR\n    Expenses:X    3 JPY\n    Expenses:Y    4 CHF\n");
-            (s, "unbalanced-residual-in-four-commodities")
+            // three or four open commodities with mixed signs
+            let k = 3 + rng.usize(2);
+            s.push_str("2024/02/01 unbalanced\n");
+            for (i, c) in ["USD", "EUR", "JPY", "CHF"].iter().take(k).enumerate() {
+                let v = (1 + rng.usize(900)) as i64 * if rng.chance(1, 2) { -1 } else { 1 };
+                s.push_str(&format!("    Assets:Pot{}    {} {}\n", i % 2, v, c));
+            }
+            (s, "unbalanced-residual-in-several-commodities")
         }
         _ => {
             s.push_str("2024/02/01 zero assign\n    Assets:Pot0    = 0\n    Equity:Opening\n");
